@@ -110,6 +110,17 @@ func max(a, b int) int {
 	}
 	return b
 }
+// clip returns x limited to the closed interval [lo, hi].
+func clip(x, lo, hi int) int {
+	if x < lo {
+		return lo
+	}
+	if x > hi {
+		return hi
+	}
+	return x
+}
+
 func min(a, b int) int {
 	if a < b {
 		return a
@@ -154,14 +165,16 @@ func Stitch(dst, src Sliceable, fs feat.Set) error {
 		}
 	}
 
+	// Clip to the sequence before translating to slice indices: the
+	// translation of an unclipped coordinate can overflow.
 	var l int
 	for _, f := range fsp {
-		l += max(0, min(f.e, end)-max(f.s, offset))
+		l += clip(f.e, offset, end) - clip(f.s, offset, end)
 	}
 	t := sl.Make(0, l)
 
 	for _, f := range fsp {
-		fs, fe := max(f.s-offset, 0), min(f.e-offset, pLen)
+		fs, fe := clip(f.s, offset, end)-offset, clip(f.e, offset, end)-offset
 		if fs >= fe {
 			continue
 		}
@@ -209,10 +222,12 @@ func Compose(dst, src Sliceable, fs feat.Set) error {
 		if f.End() < f.Start() {
 			return errors.New("sequtils: feature end < feature start")
 		}
-		l := min(f.End(), end) - max(f.Start(), offset)
+		// Clip before translating to slice indices, see Stitch.
+		fs, fe := clip(f.Start(), offset, end)-offset, clip(f.End(), offset, end)-offset
+		l := fe - fs
 		tl += l
 		t[i] = sl.Make(l, l)
-		t[i].Copy(sl.Slice(max(f.Start()-offset, 0), min(f.End()-offset, pLen)))
+		t[i].Copy(sl.Slice(fs, fe))
 	}
 
 	c := sl.Make(0, tl)
